@@ -11,6 +11,24 @@ from qlib.report import Rule
 OWNERS = ["Qentem::StringStream", "Qentem::String", "Qentem::Array", "Qentem::HashTable", "Qentem::HArray", "Qentem::HList"]
 ACCESSORS = {"First", "Storage", "Last", "End", "Buffer"}
 PRIMS = {"Deallocate"}   # retargeting the storage field (allocate/setStorage) keeps the old block alive
+HANDOVER = {"Detach"}    # the caller becomes the owner of the returned block
+
+
+def interior_accessors(m):
+    """methods of the owning classes that return a pointer into the container's storage (found from the model: non-static
+    members with a pointer return type), and their reference-to-pointer out-parameters: name -> [parameter index]"""
+    acc = set(ACCESSORS)
+    outp = {}
+    for f in m.functions:
+        if f.inst or f.cls not in OWNERS or f.is_static or f.name in HANDOVER:
+            continue
+        rt = (f.d.get("ret") or "").strip()
+        if rt.endswith("*") or rt.endswith("*const"):
+            acc.add(f.name)
+        for i, p_ in enumerate(f.params):
+            if p_.get("ref") and "*" in p_["t"] and not p_.get("pconst"):
+                outp.setdefault(f.name, set()).add(i)
+    return acc, outp
 
 
 def may_release_sets(m):
@@ -212,10 +230,12 @@ def owner_of_type(t):
     return None
 
 
-def analyse_fn(m, f, rel, summ=None, fsumm=None, alias_params=False):
+def analyse_fn(m, f, rel, summ=None, fsumm=None, alias_params=False, acc=None, outp=None):
     """returns list of (node id, pointer name, container text, releasing call text)"""
     if not f.cfg:
         return [], 0
+    acc = acc or ACCESSORS
+    outp = outp or {}
     # container variables by declared type
     types = {p["n"]: p["t"] for p in f.params}
     for i in astq.nodes_of(f, "DeclStmt"):
@@ -248,7 +268,7 @@ def analyse_fn(m, f, rel, summ=None, fsumm=None, alias_params=False):
             return borrow_source(n["ch"][0])
         if n["k"] == "ParenExpr":
             return borrow_source(n["ch"][0])
-        if n["k"] in ("CallExpr", "CXXMemberCallExpr") and f.call_simple_name(s) in ACCESSORS:
+        if n["k"] in ("CallExpr", "CXXMemberCallExpr") and f.call_simple_name(s) in acc:
             key, owner = container_key(f.call_receiver(s))
             if key and owner:
                 return key, owner
@@ -272,11 +292,25 @@ def analyse_fn(m, f, rel, summ=None, fsumm=None, alias_params=False):
     if alias_params and f.cls in rel and not f.is_static:
         # a raw element pointer handed to a method of an owning container may point into that container's own storage
         # (self-append: s.Write(s.First(), n), ss += ss, a << a)
-        elem = {"Qentem::String": "Char_T", "Qentem::StringStream": "Char_T", "Qentem::Array": "Type_T"}.get(f.cls)
+        elem = {"Qentem::String": ("Char_T",), "Qentem::StringStream": ("Char_T",), "Qentem::Array": ("Type_T",),
+                "Qentem::HArray": ("Value_T",)}.get(f.cls, ())
+        # (keys are only ever handed out as const, so a Key_T && argument cannot refer to a stored key)
         for p_ in f.params:
-            if elem and p_.get("ptr") and p_.get("pconst") and elem in p_["t"]:
+            base_t = p_["t"].replace("const ", "").replace("&", "").replace("*", "").strip()
+            if p_.get("ptr") and p_.get("pconst") and any(e_ in p_["t"] for e_ in elem):
                 ptr_locals[p_["d"]] = p_["n"]
                 seed.add((p_["d"], "this", "valid", ""))
+            elif p_.get("ref") and base_t in elem and p_.get("tk") not in ("uint", "sint", "bool", "char"):
+                # a reference to an element type may refer to an element of this very container (a += a[0])
+                ptr_locals[p_["d"]] = p_["n"]
+                seed.add((p_["d"], "this", "valid", ""))
+    # a container of the receiver's own class taken by const reference may be the receiver itself (a += a, h += h)
+    alias_of = {}
+    if alias_params and f.cls in rel and not f.is_static:
+        short = f.cls.split("::")[-1]
+        for p_ in f.params:
+            if p_.get("ref") and not p_.get("rref") and p_.get("pconst") and owner_of_type(p_["t"]) in (f.cls,) and short in p_["t"]:
+                alias_of[p_["n"]] = "this"
     if not ptr_locals:
         return [], 0
 
@@ -381,6 +415,18 @@ def analyse_fn(m, f, rel, summ=None, fsumm=None, alias_params=False):
                         for x in list(st):
                             if x[0] == s2.get("d"):
                                 st.add((lhs["d"], x[1], x[2], x[3]))
+        if k in ("CallExpr", "CXXMemberCallExpr") and f.call_simple_name(nid) in outp:
+            # find(index, ...): the link pointer handed back through a reference parameter points into the table
+            key, owner = container_key(f.call_receiver(nid))
+            if key and owner:
+                cargs = f.call_args(nid)
+                for j in outp[f.call_simple_name(nid)]:
+                    if j < len(cargs):
+                        an = f.nodes[f.strip(cargs[j])]
+                        if an["k"] == "DeclRefExpr" and an.get("d") in ptr_locals:
+                            st = {x for x in st if x[0] != an["d"]}
+                            st.add((an["d"], key, "valid", ""))
+                            borrows.add((an["n"], key))
         if k in ("CallExpr", "CXXMemberCallExpr") and f.call_simple_name(nid) == "Deallocate":
             a = f.call_args(nid)
             a0 = f.nodes[f.strip_casts(a[0])] if a else {}
@@ -391,7 +437,8 @@ def analyse_fn(m, f, rel, summ=None, fsumm=None, alias_params=False):
                     st.add((a0["d"], "?", "stale", f.text(nid)))
         if k in ("CallExpr", "CXXMemberCallExpr", "CXXOperatorCallExpr", "CompoundAssignOperator", "BinaryOperator"):
             for (key, why) in releases(e):
-                st = {(d, kk, "stale" if kk == key else s, why if kk == key and s == "valid" else w) for (d, kk, s, w) in st}
+                st = {(d, kk, "stale" if (kk == key or alias_of.get(kk) == key) else s,
+                       (why + (" (when `%s` is the object itself)" % kk if kk != key else "")) if (kk == key or alias_of.get(kk) == key) and s == "valid" else w) for (d, kk, s, w) in st}
         return frozenset(st)
 
     it = 0
@@ -426,12 +473,14 @@ def rule_borrow(ctx, m, files, extra_fns=(), rid="BORROW", alias_params=False):
     r.notes.append("may-release sets: " + "; ".join("%s: %s" % (k.split("::")[-1], ",".join(sorted(v))) for k, v in sorted(rel.items())))
     summ = param_release_summaries(m, rel)
     fsumm = field_release_summaries(m, rel)
+    acc, outp = interior_accessors(m)
+    r.notes.append("interior-pointer accessors: " + ",".join(sorted(acc)))
     fns = [f for f in m.functions if not f.inst and any(f.file.endswith(x) for x in files)]
     for q in extra_fns:
         fns += m.fns(q, pattern=True, required=False)
     total_borrows = 0
     for f in fns:
-        found, nb = analyse_fn(m, f, rel, summ, fsumm, alias_params)
+        found, nb = analyse_fn(m, f, rel, summ, fsumm, alias_params, acc, outp)
         total_borrows += nb
         if nb:
             ctx.note_fn(f)
